@@ -319,15 +319,41 @@ func (r *Route) weighTargets() {
 	// more formal, if possible.
 	//
 	slots := make(byN, len(r.Targets))
+	frac := make([]float64, len(r.Targets))
 	usedSlots := 0
 	for i, t := range r.Targets {
-		n := int(float64(maxSlots) * t.Weight)
+		f := float64(maxSlots) * t.Weight
+		n := int(f)
 		if n == 0 && t.Weight > 0 {
 			n = 1
 		}
 		slots[i].i = i
 		slots[i].n = n
+		frac[i] = f - float64(n)
 		usedSlots += n
+	}
+
+	// Rounding every share down loses up to one slot per target. With many
+	// targets the ring would become noticeably shorter than maxSlots which
+	// inflates the share of all targets with many slots (one target with a
+	// fixed weight of 20% and 1234 dynamic targets: 2000 of 9404 slots =
+	// 21.3%). Hand the lost slots to the targets which lost the largest
+	// fraction so that every target is within one slot of its weight.
+	if missing := int(maxSlots) - usedSlots; missing > 0 {
+		var order []int
+		for i, t := range r.Targets {
+			if t.Weight > 0 {
+				order = append(order, i)
+			}
+		}
+		sort.SliceStable(order, func(a, b int) bool { return frac[order[a]] > frac[order[b]] })
+		if missing > len(order) {
+			missing = len(order)
+		}
+		for _, i := range order[:missing] {
+			slots[i].n++
+			usedSlots++
+		}
 	}
 
 	// never leave the pickers with an empty ring
